@@ -149,7 +149,7 @@ pub fn check_in(ctx: &Ctx, case: &PresCase) -> Report {
 }
 
 fn strat() -> impl Strategy<Value = PresCase> {
-    let cfg = GenCfg { max_contig: 2500, max_samples: 4, many_samples_pct: 0, single_file: None, vary_presentation: true };
+    let cfg = GenCfg { max_contig: 2500, max_samples: 4, many_samples_pct: 0, single_file: None, vary_presentation: true, swarm_pct: 0 };
     (gen::collection_strategy(cfg), prop::collection::vec(gen::presentation_strategy(), 2..4), prop::bool::weighted(0.5)).prop_map(|(mut collection, variants, other_mode)| {
         // byte identity in single-file mode is only claimed below pack-cardinality contigs
         collection.params.pack = 50;
